@@ -434,6 +434,7 @@ func (u *Unit) card(ks, domArr string) string {
 			fmt.Sprintf("(forall ((d!c %s) (k!c %s)) (! (= (%s (store d!c k!c true)) (+ (%s d!c) (ite (select d!c k!c) 0 1))) :pattern ((%s (store d!c k!c true)))))", ds, ks, f, f, f),
 			fmt.Sprintf("(forall ((d!c %s) (k!c %s)) (! (= (%s (store d!c k!c false)) (- (%s d!c) (ite (select d!c k!c) 1 0))) :pattern ((%s (store d!c k!c false)))))", ds, ks, f, f, f),
 			fmt.Sprintf("(forall ((d!c %s)) (! (>= (%s d!c) 0) :pattern ((%s d!c))))", ds, f, f),
+			fmt.Sprintf("(= (%s %s) 0)", f, u.emptySet(ks)),
 		)
 	}
 	f := u.enc.declFun("card$"+ks, []string{"(Array " + ks + " Bool)"}, "Int")
